@@ -5,9 +5,9 @@ Open Scope N_scope.
 
 (* ---------- complete sequences ---------- *)
 
-(* a string the regexp `\x1b\[[\d;]+m` matches entirely *)
+(* a string the regexp `\x1b\[[\d;]*m` matches entirely: an SGR sequence, parameters optional *)
 Definition sgr_seq (m : bytes) : Prop :=
-  exists ds, ds <> [] /\ forallb is_param ds = true /\ m = c_esc :: c_lbr :: ds ++ [c_m].
+  exists ds, forallb is_param ds = true /\ m = c_esc :: c_lbr :: ds ++ [c_m].
 
 (* a concatenation of complete sequences *)
 Inductive sgrs : bytes -> Prop :=
@@ -36,7 +36,7 @@ Lemma params_len_le s : (params_len s <= length s)%nat.
 Proof. induction s as [|c r IH]; simpl; [lia|]. destruct (is_param c); simpl; lia. Qed.
 
 Lemma sgr_seq_length m : sgr_seq m -> (3 <= length m)%nat.
-Proof. intros (ds & Hne & _ & ->). destruct ds; [congruence|]. simpl. rewrite app_length. simpl. lia. Qed.
+Proof. intros (ds & _ & ->). cbn [length]. rewrite app_length. cbn [length]. lia. Qed.
 
 Lemma sgr_seq_nonnil m : sgr_seq m -> m <> [].
 Proof. intros H ->. apply sgr_seq_length in H. simpl in H. lia. Qed.
@@ -44,11 +44,10 @@ Proof. intros H ->. apply sgr_seq_length in H. simpl in H. lia. Qed.
 (* the match at the head of m ++ r is m *)
 Lemma sgr_len_seq m r : sgr_seq m -> sgr_len (m ++ r) = length m.
 Proof.
-  intros (ds & Hne & Hds & ->). cbn [app sgr_len]. rewrite !N.eqb_refl. cbn [andb].
+  intros (ds & Hds & ->). cbn [app sgr_len]. rewrite !N.eqb_refl. cbn [andb].
   rewrite <- app_assoc. cbn [app]. rewrite (params_len_all ds c_m r Hds is_param_m).
   rewrite nth_error_app2 by lia. rewrite Nat.sub_diag. cbn [nth_error]. rewrite N.eqb_refl.
-  destruct ds as [|d ds]; [congruence|]. cbn [length Nat.ltb Nat.leb andb].
-  rewrite app_length. cbn [length]. lia.
+  cbn [length]. rewrite app_length. cbn [length]. lia.
 Qed.
 
 (* a non-zero sgr_len is the length of a complete sequence at the head *)
@@ -57,19 +56,15 @@ Proof.
   destruct s as [|e [|b r]]; cbn [sgr_len]; try discriminate.
   destruct ((e =? c_esc) && (b =? c_lbr)) eqn:E; [|discriminate].
   apply andb_true_iff in E as [He Hb]. apply N.eqb_eq in He, Hb. subst e b.
-  destruct (Nat.ltb 0 (params_len r)) eqn:Hpos; [|discriminate]. cbn [andb].
   destruct (nth_error r (params_len r)) as [c|] eqn:Hn; [|discriminate].
   destruct (c =? c_m) eqn:Hc; [|discriminate]. apply N.eqb_eq in Hc. subst c.
   intros [= <-].
-  apply Nat.ltb_lt in Hpos.
   pose proof (nth_error_split r (params_len r) Hn) as (l1 & l2 & Hr & Hl).
   assert (Hf : firstn (params_len r) r = l1).
   { rewrite Hr at 2. rewrite <- Hl. rewrite firstn_app, Nat.sub_diag, firstn_all. simpl. now rewrite app_nil_r. }
   exists (c_esc :: c_lbr :: l1 ++ [c_m]), l2. split; [|split].
   - rewrite Hr at 1. cbn [app]. now rewrite <- app_assoc.
-  - exists l1. split; [|split; [|reflexivity]].
-    + intros ->. simpl in Hl. lia.
-    + rewrite <- Hf. apply params_len_firstn.
+  - exists l1. split; [|reflexivity]. rewrite <- Hf. apply params_len_firstn.
   - cbn [length]. rewrite app_length. cbn [length]. lia.
 Qed.
 
@@ -119,7 +114,7 @@ Proof. intros H. rewrite <- (app_nil_r m). constructor; [exact H|constructor]. Q
 Lemma sgrs_head s : sgrs s -> s <> [] -> exists t, s = c_esc :: t.
 Proof.
   induction 1 as [|m s Hm Hs IH]; [congruence|]. intros _.
-  destruct Hm as (ds & _ & _ & ->). eexists. reflexivity.
+  destruct Hm as (ds & _ & ->). eexists. reflexivity.
 Qed.
 
 (* decision procedure for sgrs, used to check concrete themes by computation *)
@@ -248,7 +243,7 @@ Proof. intros (a' & p & q & b' & _ & H & _ & Hq & _). destruct q; simpl in H; co
 (* the bytes of a sequence after its first are never ESC *)
 Lemma sgr_seq_tail x t : sgr_seq (x :: t) -> ~ In c_esc t.
 Proof.
-  intros (ds & _ & Hds & [= -> ->]). intros [H|H]; [discriminate|].
+  intros (ds & Hds & [= -> ->]). intros [H|H]; [discriminate|].
   apply in_app_or in H as [H|[H|[]]]; [|discriminate].
   rewrite forallb_forall in Hds. apply Hds in H. discriminate.
 Qed.
@@ -318,7 +313,7 @@ Qed.
 
 Lemma spans_esc_free a b : esc_free a -> ~ spans a b.
 Proof.
-  intros H (a' & p & q & b' & -> & _ & Hp & _ & (ds & _ & _ & Hs)).
+  intros H (a' & p & q & b' & -> & _ & Hp & _ & (ds & _ & Hs)).
   destruct p as [|x p]; [congruence|]. cbn [app] in Hs. injection Hs as -> _.
   apply H, in_or_app. right. now left.
 Qed.
@@ -494,7 +489,7 @@ Proof. rewrite forallb_app. now intros [H _]%andb_true_iff. Qed.
 (* a non-empty proper prefix of a complete sequence *)
 Lemma prefix_partial p q : p <> [] -> q <> [] -> sgr_seq (p ++ q) -> partialb p = true.
 Proof.
-  intros Hp Hq (ds & _ & Hds & Heq).
+  intros Hp Hq (ds & Hds & Heq).
   destruct p as [|e p0]; [congruence|]. cbn [app] in Heq. injection Heq as -> Heq.
   cbn [partialb]. rewrite N.eqb_refl. cbn [andb].
   destruct p0 as [|b ds0]; [reflexivity|]. cbn [app] in Heq. injection Heq as -> Heq.
@@ -589,7 +584,7 @@ Proof.
   apply andb_true_iff in H as [Hb Hds]. apply N.eqb_eq in Hb. subst b. split.
   - intros [H|H]; [discriminate|]. rewrite forallb_forall in Hds. apply Hds in H. discriminate.
   - cbn [sgr_len]. rewrite !N.eqb_refl. cbn [andb]. rewrite (params_len_allp _ Hds).
-    replace (nth_error ds (length ds)) with (@None N); [now rewrite andb_false_r|].
+    replace (nth_error ds (length ds)) with (@None N); [reflexivity|].
     symmetry. apply nth_error_None. lia.
 Qed.
 
@@ -711,12 +706,14 @@ Proof.
   apply (boundary_safe_necessary dark doc dark_ok) in Hn; [|discriminate]. apply Hn, H, dark_ok.
 Qed.
 
-(* ---------- what strip does not recognise ---------- *)
+(* ---------- strip removes every SGR sequence ---------- *)
 
-(* an SGR sequence in the wider sense: the parameters may be absent (ESC [ m is "reset") *)
-Definition sgr_any (m : bytes) : Prop :=
-  exists ds, forallb is_param ds = true /\ m = c_esc :: c_lbr :: ds ++ [c_m].
+(* whatever its parameters, also none (ESC [ m): removed, and it shows zero characters *)
+Lemma strip_removes_sgr m : sgr_seq m -> strip m = [] /\ vis_len m = 0%nat /\ forall r, strip (m ++ r) = strip r.
+Proof.
+  intros H. assert (E : strip m = []) by (apply strip_sgrs_nil; now apply sgrs_one).
+  split; [exact E|]. split; [unfold vis_len; now rewrite E|]. intros r. now apply strip_seq.
+Qed.
 
-(* StripAllAnsiSequences requires at least one parameter byte: ESC [ m survives, as 3 visible characters *)
-Lemma strip_parameterless : sgr_any (c_esc :: b!"[m") /\ strip (c_esc :: b!"[m") = c_esc :: b!"[m" /\ vis_len (c_esc :: b!"[m") = 3%nat.
-Proof. split; [exists []; split; reflexivity|split; vm_compute; reflexivity]. Qed.
+Lemma sgr_seq_reset : sgr_seq (c_esc :: b!"[m").
+Proof. exists []. split; reflexivity. Qed.
